@@ -15,20 +15,22 @@ import vlib
 
 _COMMON = ["MathUtil.isPow2_iff", "MathUtil.maxPow2_eq", "MathUtil.nextPow2W_isNext", "MathUtil.nextPow2W_pow2",
            "MathUtil.nextPow2W_sat", "MathUtil.nextPow2W_lt_iff", "MathUtil.nextPow2W_zero", "MathUtil.nextPow2W_loop_bound",
-           "MathUtil.nextPow2W_eq_uspsc", "MathUtil.nextPow2S_nonneg", "MathUtil.nextPow2S_neg"]
+           "MathUtil.nextPow2W_eq_uspsc", "MathUtil.nextPow2S_nonneg", "MathUtil.nextPow2S_neg", "MathUtil.nextPow2V_eq"]
 
 THEOREMS = {
     "C01": _COMMON + ["MathUtil.C01_any_requested_capacity", "MathUtil.C01_wrap_any_requested_capacity", "MathUtil.C01_mask_is_mod",
-                      "MathUtil.C01_storage_exact", "MathUtil.C01_size_t_request_above_2pow62_has_no_storage",
+                      "MathUtil.C01_storage_exact", "MathUtil.C01_rejected_iff", "MathUtil.C01_unrepaired_never_rejects", "MathUtil.C01_unrepaired_flag_witness",
+                      "MathUtil.C01_size_t_request_above_2pow62_has_no_storage",
                       "MathUtil.C01_request_fits_iff", "MathUtil.boundedCtor_ok", "MathUtil.batch_le_cap",
                       "MathUtil.slot_wrap", "MathUtil.sizeW_eq", "MathUtil.empty_eq",
                       "Obligations.math_common_found", "Obligations.math_is_pow2_shape", "Obligations.math_max_pow2_shape",
                       "Obligations.math_next_pow2_shape", "Obligations.math_bounded_found", "Obligations.math_bounded_ctor_shape",
-                      "Obligations.math_bounded_ctor_extracted", "Obligations.C01_cap_extracted"],
+                      "Obligations.math_bounded_ctor_extracted", "Obligations.C01_cap_extracted", "Obligations.math_spelling_extracted",
+                      "Obligations.math_ctor_rejects_oversized", "Obligations.C01_storage_exact_extracted"],
     "C02": _COMMON + ["MathUtil.C02_any_requested_initial_capacity", "MathUtil.C02_node_capacity_pow2",
                       "MathUtil.C02_grow_decision_is_model", "MathUtil.C02_shrink_is_model",
                       "MathUtil.C02_doubling_loop_hangs_above_2pow63", "MathUtil.C02_doubling_loop_hangs_on_max_node",
-                      "MathUtil.handleFullCap_eq_dbl",
+                      "MathUtil.handleFullCap_eq_dbl", "MathUtil.C02_repaired_growth_below_2pow63", "Obligations.math_spelling_extracted_u",
                       "Obligations.math_common_found_u", "Obligations.math_pow2_shape_u", "Obligations.math_unbounded_found",
                       "Obligations.math_unbounded_shape", "Obligations.math_unbounded_extracted", "Obligations.C02_cap_extracted"],
     "C03": _COMMON + ["MathUtil.C03_transit_any_requested_capacity", "MathUtil.C03_transit_wbit_refines",
@@ -36,7 +38,7 @@ THEOREMS = {
                       "MathUtil.runW_toW", "MathUtil.capsOK_of_sizes", "MathUtil.transitCtor_ok",
                       "Obligations.math_common_found_t", "Obligations.math_pow2_shape_t", "Obligations.math_transit_found",
                       "Obligations.math_transit_shape", "Obligations.math_transit_widths", "Obligations.math_transit_extracted",
-                      "Obligations.C03_cap_extracted"],
+                      "Obligations.C03_cap_extracted", "Obligations.math_spelling_extracted_t"],
 }
 MODULES = {"C01": ["QuillModel.Props.C01Cap"], "C02": ["QuillModel.Props.C02Cap"], "C03": ["QuillModel.Props.C03Cap"]}
 OBLIG_BY_PROP = {"C01": ["QuillModel.Obligations.MathUtilC01"], "C02": ["QuillModel.Obligations.MathUtilC02"],
@@ -60,6 +62,14 @@ def attach(prop, theorems, modules, oblig):
     for o in OBLIG_BY_PROP.get(prop, []):
         if o not in oblig:
             oblig.append(o)
+
+
+def _rej_flag(ck=None):
+    """extracted flag `ctorRejectsOversized` (the repaired bounded constructor throws for a capacity whose doubled size wraps)"""
+    ex = getattr(ck, "extracted", None) if ck is not None else None
+    if ex is None:
+        ex = vlib.run_extract()
+    return "1" if ex.get("math", {}).get("ctorRejectsOversized") else "0"
 
 
 def _build():
@@ -99,7 +109,7 @@ def _examine(ck, prop, label, rc, out, info, ps):
             for kv in l.split()[1:]:
                 k, v = kv.split("=")
                 info["stats"][k] = info["stats"].get(k, 0) + int(v)
-    rcd, dout = vlib.driver(["mathutil", "trace"], stdin_data=out.encode(), timeout=900)
+    rcd, dout = vlib.driver(["mathutil", "trace", _rej_flag(ck)], stdin_data=out.encode(), timeout=900)
     mm = [l for l in dout.split("\n") if l.startswith(("MISMATCH", "BAD-OP"))]
     pd = [l for l in dout.split("\n") if l.startswith("PARAM-DIFF")]
     done = [l for l in dout.split("\n") if l.startswith("DONE")]
@@ -187,7 +197,7 @@ def replay(prop, path):
         return 2
     rc, out = _run_text(hbin, ["replay", path])
     print(out)
-    rcd, dout = vlib.driver(["mathutil", "trace"], stdin_data=out.encode())
+    rcd, dout = vlib.driver(["mathutil", "trace", _rej_flag()], stdin_data=out.encode())
     print(dout)
     listed = [f for f in vlib.known_findings("C01") if f.get("id") == "F32"]
     bad = [l for l in out.split("\n") if l.startswith("ORACLE") and not (listed and F32_CLASS in l)]
